@@ -22,7 +22,7 @@ RULE = ('all rooted object graphs with <= k containers (types list/tuple/dict/se
         '= distinct (graph, entry point, options, outcome class)')
 ASSUMPTIONS = ['cycle checking disabled on a cyclic input is a user-requested non-terminating walk and is excluded',
                'json.build_tree has no cycle detection: for cyclic input only termination by an exception is required',
-               'sets hold scalars only (members must be hashable)']
+               'sets hold scalars and tuples of hashables; mapping keys are strings or tuples; a tuple inside a set or used as a key may read back as a tuple']
 MANIFEST = {
     'technique': 'bounded-exhaustive enumeration of object graphs (trees, DAGs, cycles) x entry points x options on the real builders, value round-trip / agreement / termination oracle',
     'text': 'Every small rooted object graph over list/tuple/dict/set nodes, including shared sub-objects and self- or '
@@ -45,18 +45,27 @@ def specs(k, scalars, maxslots=2, types=None):
     """All graphs: tuple of (type, slots) where a slot is ('s', scalar) or ('e', j); every container reachable from 0."""
     def slot_options(typ):
         opts = [('s', s) for s in scalars]
-        if typ != 'set':
-            opts += [('e', j) for j in range(k)]
+        opts += [('e', j) for j in range(k)]      # for a set: only to hashable nodes (tuples of hashables), filtered below
         return opts
+
+    def hashable(combo, j, stack=()):
+        typ, slots = combo[j]
+        if typ != 'tuple' or j in stack:
+            return False
+        return all(kind == 's' or hashable(combo, v, stack + (j,)) for kind, v in slots)
 
     per = []
     for typ in (types or TYPES):
         for n in range(0, maxslots + 1):
             for slots in itertools.product(slot_options(typ), repeat=n):
-                if typ == 'set' and len({v for _, v in slots}) != len(slots):
+                if typ == 'set' and len({(kd, v) for kd, v in slots}) != len(slots):
                     continue        # members that are equal in Python (1 == True) collapse inside a real set
+                if typ == 'set' and len({v for kd, v in slots if kd == 's'}) != len([1 for kd, _ in slots if kd == 's']):
+                    continue
                 per.append((typ, slots))
     for combo in itertools.product(per, repeat=k):
+        if any(typ == 'set' and any(kind == 'e' and not hashable(combo, v) for kind, v in slots) for typ, slots in combo):
+            continue        # a set can only hold hashable members
         reach = {0}
         stack = [0]
         while stack:
@@ -118,7 +127,7 @@ def construct(spec):
     for i, (typ, slots) in enumerate(spec):
         if typ == 'list':
             objs[i] = []
-        elif typ == 'dict':
+        elif typ in ('dict', 'dictk'):
             objs[i] = {}
         elif typ == 'obj':
             objs[i] = Node()
@@ -147,6 +156,9 @@ def construct(spec):
         elif typ == 'dict':
             for n, (kind, v) in enumerate(slots):
                 objs[i][f'k{n}'] = v if kind == 's' else objs[v]
+        elif typ == 'dictk':
+            for n, (kind, v) in enumerate(slots):
+                objs[i][('k', n)] = v if kind == 's' else objs[v]
         elif typ == 'obj':
             for n, (kind, v) in enumerate(slots):
                 setattr(objs[i], f'a{n}', v if kind == 's' else objs[v])
@@ -164,6 +176,8 @@ def expected(spec, i=0, depth=0):
         return vals
     if typ == 'dict':
         return {f'k{n}': v for n, v in enumerate(vals)}
+    if typ == 'dictk':
+        return {('k', n): v for n, v in enumerate(vals)}
     if typ == 'obj':
         return {'#class': 'Node', **{f'a{n}': v for n, v in enumerate(vals)}}
     return Bag(vals)
@@ -187,9 +201,15 @@ def expected_with_placeholders(spec, i=0, stack=()):
         return vals
     if typ == 'dict':
         return {f'k{n}': v for n, v in enumerate(vals)}
+    if typ == 'dictk':
+        return {('k', n): v for n, v in enumerate(vals)}
     if typ == 'obj':
         return {'#class': 'Node', **{f'a{n}': v for n, v in enumerate(vals)}}
     return Bag(vals)
+
+
+def as_key(v):
+    return tuple(as_key(x) for x in v) if isinstance(v, list) else v
 
 
 def plain_with_placeholders(tree):
@@ -204,7 +224,7 @@ def plain_with_placeholders(tree):
         from mc.gen import Pair
         return Pair(plain_with_placeholders(tree.key), plain_with_placeholders(tree.value))
     if isinstance(tree, graphtage.MappingNode):
-        return {plain(k.key): plain_with_placeholders(k.value) for k in tree}
+        return {as_key(plain_with_placeholders(k.key)): plain_with_placeholders(k.value) for k in tree}
     if isinstance(tree, graphtage.MultiSetNode):
         return Bag([plain_with_placeholders(c) for c in tree])
     if isinstance(tree, graphtage.ListNode):
@@ -368,6 +388,18 @@ def evaluate(spec, wrap):
                                                      f'{tag}: expected {want!r}, tree {got!r}')
                             except Exception as e:  # noqa
                                 fails.setdefault(f'tree_unreadable {type(e).__name__} @ {entry} : ignored cycle', f'{tag}: {e!r}')
+                        if err is None and contains_cyclic_reference(tree):
+                            # "a tree can be deep-copied to an equal tree" holds for trees with placeholders too, and
+                            # converting the same object twice gives equal trees
+                            try:
+                                cp = tree.copy()
+                                if not (cp == tree) or not (tree == cp):
+                                    fails.setdefault(f'copy_not_equal @ {type(tree).__name__}.copy : {entry}, tree with a cycle placeholder', tag)
+                                again = convert(entry, obj, ds, check, ignore, lm)
+                                if not (again == tree):
+                                    fails.setdefault(f'same_object_converted_twice_differs @ {entry} : tree with a cycle placeholder', tag)
+                            except Exception as e:  # noqa
+                                fails.setdefault(f'copy_raised {type(e).__name__} @ {site_of(e)} : {entry}, tree with a cycle placeholder', f'{tag}: {e!r}')
                         outs.add(h((entry, 'ignored')))
                     else:
                         if err is None:
@@ -380,6 +412,8 @@ def evaluate(spec, wrap):
                 if err is not None:
                     if entry == 'json' and has_set(spec) and isinstance(err, ValueError) and 'Unsupported' in str(err):
                         continue        # json.build_tree does not accept sets (documented input types)
+                    if entry == 'json' and any(t == 'dictk' for t, _ in spec) and isinstance(err, ValueError) and 'expected to be an int or string' in str(err):
+                        continue        # nor mapping keys other than int / str
                     what = 'shared_object_mistaken_for_cycle' if (isinstance(err, ValueError) and 'cycle' in str(err).lower()) else f'conversion_raised {type(err).__name__}'
                     fails.setdefault(f'{what} @ {site_of(err)} : {entry}, {cls} graph', f'{tag}: {str(err)[:200]}')
                     continue
@@ -390,6 +424,15 @@ def evaluate(spec, wrap):
                 if faults:
                     fails.setdefault(f'node_not_built_according_to_options @ {entry} : dict={ds}, lists={lm}', f'{tag}: {faults[0]}')
                     continue
+                if wrap or objs:
+                    try:
+                        cp = tree.copy()
+                        if not (cp == tree) or not (tree == cp) or not (convert(entry, obj, ds, check, ignore, lm) == tree):
+                            fails.setdefault(f'copy_not_equal @ {type(tree).__name__}.copy : {entry}, custom objects', tag)
+                            continue
+                    except Exception as e:  # noqa
+                        fails.setdefault(f'copy_raised {type(e).__name__} @ {site_of(e)} : {entry}, custom objects', f'{tag}: {e!r}')
+                        continue
                 if wrap:
                     outs.add(h((entry, 'wrapped ok')))
                     continue
@@ -421,15 +464,15 @@ def evaluate(spec, wrap):
                     fails.setdefault(f'to_obj_differs_from_original @ {type(tree).__name__}.to_obj : {entry}, dict={ds}', f'{tag}: original {exp!r}, to_obj {got!r}')
                     continue
                 try:
-                    if canon(plain(tree)) != canon(exp):
-                        fails.setdefault(f'tree_structure_differs_from_original @ {entry} : dict={ds}', f'{tag}: {plain(tree)!r} vs {exp!r}')
+                    if canon(plain_with_placeholders(tree)) != canon(exp):
+                        fails.setdefault(f'tree_structure_differs_from_original @ {entry} : dict={ds}', f'{tag}: {plain_with_placeholders(tree)!r} vs {exp!r}')
                         continue
                 except Exception as e:  # noqa
                     fails.setdefault(f'tree_unreadable {type(e).__name__} @ {entry} : dict={ds}', f'{tag}: {e!r}')
                     continue
                 try:
                     cp = tree.copy()
-                    if not (cp == tree) or canon(plain(cp)) != canon(exp):
+                    if not (cp == tree) or canon(plain_with_placeholders(cp)) != canon(exp):
                         fails.setdefault(f'copy_not_equal @ {type(tree).__name__}.copy : {entry}, dict={ds}', tag)
                         continue
                 except Exception as e:  # noqa
@@ -441,6 +484,10 @@ def evaluate(spec, wrap):
 
 def all_specs(tier):
     q = tier == 'quick'
+    yield from specs(1, (1, 'a'), types=('dictk',))
+    yield from specs(2, (1, 'a'), types=('dictk', 'tuple', 'set', 'list'))
+    if not q:
+        yield from specs(3, (1,), maxslots=2, types=('set', 'tuple', 'dictk'))
     yield from specs(1, (1, 1.5, True, 'a', None))
     yield from specs(2, (1, 1.5, True, 'a', None) if not q else (1, 'a', None))
     if q:
